@@ -23,7 +23,17 @@ type projectState struct {
 	include []string
 	exclude []string
 	merge   map[string]interface{}
+	order   []string
 	skip    map[string]bool
+}
+
+// overlay registers a value that is merged into the result after the
+// inclusion or exclusion phase. Overlays are applied in registration order.
+func (s *projectState) overlay(path string, value interface{}) {
+	if _, ok := s.merge[path]; !ok {
+		s.order = append(s.order, path)
+	}
+	s.merge[path] = value
 }
 
 // ProjectList will apply the provided projection to the specified list.
@@ -70,8 +80,12 @@ func Project(doc, projection bsonkit.Doc) (bsonkit.Doc, error) {
 		// set null document
 		res = &bson.D{}
 
-		// copy id
-		_, err := bsonkit.Put(res, "_id", bsonkit.Get(doc, "_id"), false)
+		// copy id (cloned, as overlays may write into included values)
+		id, err := cloneIncluded(bsonkit.Get(doc, "_id"))
+		if err != nil {
+			return nil, err
+		}
+		_, err = bsonkit.Put(res, "_id", id, false)
 		if err != nil {
 			return nil, err
 		}
@@ -86,6 +100,10 @@ func Project(doc, projection bsonkit.Doc) (bsonkit.Doc, error) {
 			}
 			value := bsonkit.Get(doc, path)
 			if value != bsonkit.Missing {
+				value, err = cloneIncluded(value)
+				if err != nil {
+					return nil, err
+				}
 				_, err = bsonkit.Put(res, path, value, false)
 				if err != nil {
 					return nil, err
@@ -104,8 +122,12 @@ func Project(doc, projection bsonkit.Doc) (bsonkit.Doc, error) {
 	}
 
 	// merge fields (overlays from operator expressions)
-	for path, value := range state.merge {
-		_, err := bsonkit.Put(res, path, value, false)
+	for _, path := range state.order {
+		value, err := cloneIncluded(state.merge[path])
+		if err != nil {
+			return nil, err
+		}
+		_, err = bsonkit.Put(res, path, value, false)
 		if err != nil {
 			return nil, err
 		}
@@ -117,6 +139,16 @@ func Project(doc, projection bsonkit.Doc) (bsonkit.Doc, error) {
 	}
 
 	return res, nil
+}
+
+// cloneIncluded copies an included value so that later writes into the result
+// (overlays from $slice and $elemMatch, nested inclusions) cannot reach the
+// stored document.
+func cloneIncluded(value interface{}) (interface{}, error) {
+	if value == bsonkit.Missing {
+		return value, nil
+	}
+	return bsonkit.ConvertValue(value)
 }
 
 func projectCondition(ctx Context, _ bsonkit.Doc, _, path string, v interface{}) error {
@@ -213,7 +245,7 @@ func projectSlice(ctx Context, doc bsonkit.Doc, _, path string, v interface{}) e
 		if limit < n-start {
 			end = start + limit
 		}
-		state.merge[path] = append(bson.A{}, array[start:end]...)
+		state.overlay(path, append(bson.A{}, array[start:end]...))
 		return nil
 	}
 
@@ -221,19 +253,19 @@ func projectSlice(ctx Context, doc bsonkit.Doc, _, path string, v interface{}) e
 	switch {
 	case limit > 0:
 		if limit < len(array) {
-			state.merge[path] = array[0:limit]
+			state.overlay(path, array[0:limit])
 		} else {
-			state.merge[path] = array
+			state.overlay(path, array)
 		}
 	case limit < 0:
 		// compare without negating limit, which overflows for math.MinInt
 		if limit > -len(array) {
-			state.merge[path] = array[len(array)+limit:]
+			state.overlay(path, array[len(array)+limit:])
 		} else {
-			state.merge[path] = array
+			state.overlay(path, array)
 		}
 	default:
-		state.merge[path] = bson.A{}
+		state.overlay(path, bson.A{})
 	}
 
 	return nil
@@ -293,7 +325,7 @@ func projectElemMatch(ctx Context, doc bsonkit.Doc, _, path string, v interface{
 		}
 
 		// emit single-element array via merge
-		state.merge[path] = bson.A{item}
+		state.overlay(path, bson.A{item})
 
 		return nil
 	}
